@@ -1,4 +1,8 @@
 import YaclibModel.Base.Ops
 import YaclibModel.Extracted.FiberAtomic
+import YaclibModel.Extracted.Kernels
+import YaclibModel.Model.Skeletons
 import YaclibModel.Model.Atomic
+import YaclibModel.Model.Unique
 import YaclibModel.Props.C19
+import YaclibModel.Props.C01
